@@ -39,8 +39,9 @@ var errNames = []string{"sentinel", "permdenied", "notexist"}
 
 type ftask struct {
 	Prefix []int
-	Lo, Hi int  // last letters [Lo,Hi) of the alphabet only (Hi == 0: all): a short frontier is cut into slices so that every worker has work
+	Lo, Hi int  // last letters [Lo,Hi) of the alphabet only (Hi == 0: all): a short frontier is cut into slices so that every worker has work; handle programmes: File methods F number [Lo,Hi) only
 	Handle bool // handle programmes (expandHandle) instead of one level of the history tree
+	Late   int  // handle programmes: the function of the plan is installed after this many calls of the opening prefix (when.go); 0: the schedule of the engine
 	Quit   bool
 }
 
@@ -92,13 +93,12 @@ func serveFault(spec string) {
 	w := bufio.NewWriter(os.Stdout)
 	out := gob.NewEncoder(w)
 
-	base, stack := spec, ""
-	if i := strings.IndexByte(spec, '/'); i >= 0 {
-		base, stack = spec[:i], spec[i+1:]
-	}
+	// spec: base/stack/when
+	parts := append(strings.SplitN(spec, "/", 3), "", "")
+	base, stack, when := parts[0], parts[1], parts[2]
 
-	ok := newSys(base, "okfunc", stack)
-	ft := newSys(base, "fault", stack)
+	ok := newSys(base, planWhen("okfunc", when), stack)
+	ft := newSys(base, planWhen("fault", when), stack)
 
 	for {
 		var t ftask
@@ -109,7 +109,21 @@ func serveFault(spec string) {
 		var r freply
 
 		if t.Handle {
-			r = expandHandle(ok, ft, t.Prefix)
+			w := when
+			if t.Late > 0 {
+				w = lateWhen(t.Late)
+			}
+
+			err := ok.setWhen(w)
+			if err == nil {
+				err = ft.setWhen(w)
+			}
+
+			if err != nil {
+				r = freply{Err: err.Error()}
+			} else {
+				r = expandHandle(ok, ft, t.Prefix, t.Lo, t.Hi)
+			}
 		} else {
 			r = expandFault(ok, ft, t.Prefix, t.Lo, t.Hi)
 		}
@@ -236,7 +250,7 @@ func expandFault(ok, ft *sys, prefix []int, lo, hi int) (r freply) {
 			v := v
 			book.add(v.Sig, func() any {
 				return map[string]any{
-					"system": ok.baseName, "stack": ok.stack, "plan": "okfunc", "history": histStrings(ok, hist),
+					"system": ok.baseName, "stack": ok.stack, "plan": planWhen("okfunc", ok.when), "history": histStrings(ok, hist),
 					"trace": traceStrings(full), "result_of_last_call": freeRes, "detail": v.Detail,
 				}
 			})
@@ -307,7 +321,7 @@ func expandFault(ok, ft *sys, prefix []int, lo, hi int) (r freply) {
 					faulted := traceStrings(ft.trace)
 					book.add(v.sig, func() any {
 						return map[string]any{
-							"system": ok.baseName, "stack": ok.stack, "plan": "fault", "history": histStrings(ok, hist), "fault": plan,
+							"system": ok.baseName, "stack": ok.stack, "plan": planWhen("fault", ok.when), "history": histStrings(ok, hist), "fault": plan,
 							"fault_free_trace": traceStrings(full), "faulted_trace": faulted,
 							"results": results, "detail": v.detail,
 						}
@@ -405,7 +419,7 @@ func expandFault(ok, ft *sys, prefix []int, lo, hi int) (r freply) {
 				pres := append([]string{}, presults...)
 				book.add(v.sig, func() any {
 					return map[string]any{
-						"system": ok.baseName, "stack": ok.stack, "plan": "fault", "history": histStrings(ok, prefix), "fault": plan,
+						"system": ok.baseName, "stack": ok.stack, "plan": planWhen("fault", ok.when), "history": histStrings(ok, prefix), "fault": plan,
 						"fault_free_trace": traceStrings(prefixTrace), "results": pres, "detail": v.detail,
 					}
 				})
@@ -443,7 +457,7 @@ func expandFault(ok, ft *sys, prefix []int, lo, hi int) (r freply) {
 					faulted := traceStrings(ft.trace)
 					book.add(v.Sig, func() any {
 						return map[string]any{
-							"system": ok.baseName, "stack": ok.stack, "plan": "fault", "history": histStrings(ok, hist), "fault": plan,
+							"system": ok.baseName, "stack": ok.stack, "plan": planWhen("fault", ok.when), "history": histStrings(ok, hist), "fault": plan,
 							"fault_free_trace": traceStrings(fulls[o]), "faulted_trace": faulted,
 							"results": res, "detail": v.Detail,
 						}
@@ -543,7 +557,7 @@ func handleLetters(s *sys, pres []string) (prefixes [][]int, fileOps []int, clos
 	return prefixes, fileOps, closeOp
 }
 
-func expandHandle(ok, ft *sys, prefix []int) (r freply) {
+func expandHandle(ok, ft *sys, prefix []int, lo, hi int) (r freply) {
 	r.Covered, r.Injected, r.Invoked = map[int]int{}, map[int]int{}, map[int]bool{}
 	r.Classes, r.Outcomes, r.TraceLens = map[string]int{}, map[string]int{}, map[int]int{}
 
@@ -576,7 +590,9 @@ func expandHandle(ok, ft *sys, prefix []int) (r freply) {
 	}
 
 	if ok.impl.files[0] == nil {
-		r.NA++ // the opening call does not succeed from the initial state: no handle, no programme
+		if lo == 0 {
+			r.NA++ // the opening call does not succeed from the initial state: no handle, no programme
+		}
 
 		return
 	}
@@ -589,7 +605,11 @@ func expandHandle(ok, ft *sys, prefix []int) (r freply) {
 		detail string
 	}
 
-	for _, f := range fileOps {
+	for fi, f := range fileOps {
+		if hi > 0 && (fi < lo || fi >= hi) {
+			continue
+		}
+
 		ok.trace = ok.trace[:plen]
 		ok.nsteps = len(prefix)
 
@@ -609,7 +629,7 @@ func expandHandle(ok, ft *sys, prefix []int) (r freply) {
 			v := v
 			book.add(v.Sig, func() any {
 				return map[string]any{
-					"system": ok.baseName, "stack": ok.stack, "plan": "okfunc", "history": histStrings(ok, histF),
+					"system": ok.baseName, "stack": ok.stack, "plan": planWhen("okfunc", ok.when), "history": histStrings(ok, histF),
 					"trace": traceStrings(full), "result_of_last_call": freeRes, "detail": v.Detail,
 				}
 			})
@@ -694,7 +714,7 @@ func expandHandle(ok, ft *sys, prefix []int) (r freply) {
 							pres := append([]string{}, presults...)
 							book.add(v.sig, func() any {
 								return map[string]any{
-									"system": ok.baseName, "stack": ok.stack, "plan": "fault", "history": histStrings(ok, histF), "fault": plan,
+									"system": ok.baseName, "stack": ok.stack, "plan": planWhen("fault", ok.when), "history": histStrings(ok, histF), "fault": plan,
 									"fault_free_trace": traceStrings(full), "results": pres, "detail": v.detail,
 								}
 							})
@@ -723,7 +743,7 @@ func expandHandle(ok, ft *sys, prefix []int) (r freply) {
 							h, rs, faulted := append([]int{}, hist...), append([]string{}, res...), traceStrings(ft.trace)
 							book.add(v.Sig, func() any {
 								return map[string]any{
-									"system": ok.baseName, "stack": ok.stack, "plan": "fault", "history": histStrings(ok, h), "fault": plan,
+									"system": ok.baseName, "stack": ok.stack, "plan": planWhen("fault", ok.when), "history": histStrings(ok, h), "fault": plan,
 									"fault_free_trace": traceStrings(full), "faulted_trace": faulted,
 									"results": rs, "detail": v.Detail,
 								}
@@ -853,6 +873,7 @@ func (w *fworker) stop() {
 type faultEngine struct {
 	Base       string `json:"base"`
 	Stack      string `json:"stack,omitempty"` // stack.go; "": the FailFS is built on the base itself
+	When       string `json:"when,omitempty"`  // when.go; "": the function of the plan is installed before the first call
 	probe      *sys
 	frontier   [][]int
 	seen       map[string]bool
@@ -883,9 +904,9 @@ type faultEngine struct {
 	Samples   []json.RawMessage   `json:"-"`
 }
 
-func newFaultEngine(base, stack string) *faultEngine {
+func newFaultEngine(base, stack, when string) *faultEngine {
 	return &faultEngine{
-		Base: base, Stack: stack, probe: newSys(base, "okfunc", stack), frontier: [][]int{nil}, seen: map[string]bool{}, Exhaustive: true,
+		Base: base, Stack: stack, When: when, probe: newSys(base, planWhen("okfunc", when), stack), frontier: [][]int{nil}, seen: map[string]bool{}, Exhaustive: true,
 		Covered: map[avfs.FnVFS]int{}, Injected: map[avfs.FnVFS]int{}, Invoked: map[avfs.FnVFS]bool{},
 		Classes: map[string]int{}, Outcomes: map[string]int{}, TraceLens: map[int]int{},
 	}
@@ -897,17 +918,30 @@ func (fe *faultEngine) crashSig() map[string]string {
 		m["stack"] = fe.Stack
 	}
 
+	if fe.When != "" {
+		m["when"] = fe.When
+	}
+
 	return m
 }
 
 // label names the engine in the progress lines.
 func (fe *faultEngine) label() string {
-	if fe.Stack == "" {
-		return fe.Base
+	l := fe.Base
+
+	if fe.Stack != "" {
+		l += "/" + fe.Stack
 	}
 
-	return fe.Base + "/" + fe.Stack
+	if fe.When != "" {
+		l += "@" + fe.When
+	}
+
+	return l
 }
+
+// spec names the systems of the engine to its workers.
+func (fe *faultEngine) spec() string { return fe.Base + "/" + fe.Stack + "/" + fe.When }
 
 func (fe *faultEngine) workLeft() float64 {
 	return float64(len(fe.frontier)) * float64(fe.probe.NumOps())
@@ -937,7 +971,7 @@ func (fe *faultEngine) runPool(tasks []ftask, deadline time.Time, report func(si
 		go func() {
 			defer wg.Done()
 
-			w, err := startFaultWorker(fe.Base + "/" + fe.Stack)
+			w, err := startFaultWorker(fe.spec())
 			if err != nil {
 				mu.Lock()
 				fe.HarnessErr = err.Error()
@@ -970,13 +1004,13 @@ func (fe *faultEngine) runPool(tasks []ftask, deadline time.Time, report func(si
 					mu.Lock()
 					fe.Crashes++
 					report(fe.crashSig(),
-						map[string]any{"system": fe.Base, "stack": fe.Stack, "prefix": histStrings(fe.probe, tasks[ti].Prefix), "detail": "worker process died while enumerating the histories with this prefix: " + err.Error()}, 1)
+						map[string]any{"system": fe.Base, "stack": fe.Stack, "when": fe.When, "prefix": histStrings(fe.probe, tasks[ti].Prefix), "detail": "worker process died while enumerating the histories with this prefix: " + err.Error()}, 1)
 					mu.Unlock()
 
 					_ = w.cmd.Process.Kill()
 					_ = w.cmd.Wait()
 
-					if w, err = startFaultWorker(fe.Base + "/" + fe.Stack); err != nil {
+					if w, err = startFaultWorker(fe.spec()); err != nil {
 						mu.Lock()
 						fe.HarnessErr = err.Error()
 						mu.Unlock()
@@ -1151,16 +1185,56 @@ func (fe *faultEngine) runLevel(deadline time.Time, report func(sig map[string]s
 // runHandle executes the handle programmes (expandHandle) of every opening
 // prefix: pool opens of slot 0 (directly and through Sub("/")), alone and
 // followed by each File call listed in pres ("*": all of them).
+//
+// An engine with a schedule (when.go: "objects first, function afterwards")
+// runs every programme once per position at which the function of the plan can
+// be installed inside its opening prefix: after the Sub, after the open, after
+// the pre call - the handle (and the Sub file system it came from) exists
+// before the function that has to govern it.
 func (fe *faultEngine) runHandle(pres []string, deadline time.Time, report func(sig map[string]string, replay any, count int)) {
 	if fe.HarnessErr != "" {
 		return
 	}
 
-	prefixes, _, _ := handleLetters(fe.probe, pres)
+	prefixes, fileOps, _ := handleLetters(fe.probe, pres)
 
-	tasks := make([]ftask, len(prefixes))
-	for i, p := range prefixes {
-		tasks[i] = ftask{Prefix: p, Handle: true}
+	var whole, tasks []ftask
+
+	for _, p := range prefixes {
+		if fe.When == "" {
+			whole = append(whole, ftask{Prefix: p, Handle: true})
+
+			continue
+		}
+
+		for late := 1; late <= len(p); late++ {
+			whole = append(whole, ftask{Prefix: p, Handle: true, Late: late})
+		}
+	}
+
+	// fewer than four tasks per worker: cut each into slices of the File methods F
+	nf, slices := len(fileOps), 1
+
+	if want := 4 * runtime.NumCPU(); len(whole) > 0 && len(whole) < want {
+		slices = (want + len(whole) - 1) / len(whole)
+	}
+
+	if slices > nf {
+		slices = nf
+	}
+
+	for _, t := range whole {
+		if slices <= 1 {
+			tasks = append(tasks, t)
+
+			continue
+		}
+
+		for c := 0; c < slices; c++ {
+			if t.Lo, t.Hi = c*nf/slices, (c+1)*nf/slices; t.Hi > t.Lo {
+				tasks = append(tasks, t)
+			}
+		}
 	}
 
 	var (
@@ -1174,7 +1248,7 @@ func (fe *faultEngine) runHandle(pres []string, deadline time.Time, report func(
 		}
 	})
 
-	fe.HPrefixes = len(prefixes)
+	fe.HPrefixes = len(whole)
 
 	if hsample != nil {
 		fe.Samples = append(fe.Samples, hsample)
@@ -1188,6 +1262,6 @@ func (fe *faultEngine) runHandle(pres []string, deadline time.Time, report func(
 
 	if aborted {
 		fe.Exhaustive = false
-		fe.HPartial = fmt.Sprintf("%d of %d opening prefixes done when the budget ended", idx, len(prefixes))
+		fe.HPartial = fmt.Sprintf("%d of %d tasks (%d opening prefixes, %d slices of the File methods each) done when the budget ended", idx, len(tasks), len(whole), slices)
 	}
 }
